@@ -51,14 +51,14 @@ def run(prop, tier, seed):
         traces = []
         for fin, fout, p in res:
             if p is not None:
-                raise InfraError(f"engine S died on {fin}:\n" + (p.stdout or "")[-3000:] + (p.stderr or "")[-2000:])
+                lockfam.died(prop, out, binp, "TestVerifS", fin, fout, p, wd, "S")
             traces.append(fout)
         # real-time part: persisted millisecond holds on a node that stops being the leader
         rt = [gen_rt.gen_rt(seed, i) for i in range(3, 64 if quick else 640, 4)]
         resr = engine.run_harness(binp, "TestVerifRT", rt, os.path.join(wd, "runrt"), tag="rt", nshards=min(len(rt), 32))
         for fin, fout, p in resr:
             if p is not None:
-                raise InfraError(f"engine RT died on {fin}:\n" + (p.stdout or "")[-3000:] + (p.stderr or "")[-2000:])
+                lockfam.died(prop, out, binp, "TestVerifRT", fin, fout, p, wd, "RT")
             traces.append(fout)
         scs = scs + rt
         # engine C: a role change racing the requests of a phase (the request is parked at its entry yield point,
@@ -69,7 +69,7 @@ def run(prop, tier, seed):
         resc = engine.run_harness(binp, "TestVerifC", conc, os.path.join(wd, "runc"), tag="c")
         for fin, fout, p in resc:
             if p is not None:
-                raise InfraError(f"engine C died on {fin}:\n" + (p.stdout or "")[-3000:] + (p.stderr or "")[-2000:])
+                lockfam.died(prop, out, binp, "TestVerifC", fin, fout, p, wd, "C")
             traces.append(fout)
         scs = scs + conc
         viols, mst = engine.monitor_traces("MonLock", traces, [prop], os.path.join(wd, "mon"))
